@@ -886,24 +886,26 @@ QUICK_WORLDS = [
     ("repl-drop", "repl-drop", dict(hbs=2, drops=1, max_msgs=3), 300_000),
 ]
 THOROUGH_WORLDS = [
-    ("stale-resp5", "stale-resp5", None, 600_000),
-    ("elect5", "elect5", dict(max_msgs=8), 120_000),
-    ("late-vote0", "late-vote0", None, 600_000),
-    ("late-vote", "late-vote", None, 600_000),
-    ("elect4", "elect", dict(n=4, timeouts=2, max_msgs=9), 600_000),
-    ("elect", "elect", None, 600_000),
-    ("repl", "repl", dict(submits=3, hbs=3), 600_000),
-    ("crash-change", "crash-change", dict(max_msgs=3), 600_000),
-    ("elect-4t3", "elect-t3", dict(max_msgs=5), 250_000),
-    ("behind", "behind", dict(hbs=1, max_msgs=4), 600_000),
+    ("stale-resp5", "stale-resp5", dict(max_msgs=5, timeouts=2), 600_000),
+    ("elect5", "elect5", dict(max_msgs=6), 600_000),
+    ("elect4", "elect", dict(n=4, timeouts=2, max_msgs=5), 150_000),
     ("change-t1", "change", dict(timeouts=1, max_term=2, hbs=2, max_msgs=4), 600_000),
     ("crash", "crash-repl", dict(hbs=1, max_msgs=4), 600_000),
-    ("fig8", "fig8", dict(hbs=0, max_msgs=6), 600_000),
+    ("behind", "behind", dict(hbs=1, max_msgs=4), 600_000),
+    ("fig8", "fig8", dict(hbs=0, max_msgs=5), 600_000),
+    ("elect-4t3", "elect-t3", dict(max_msgs=4), 600_000),
     ("change-t2", "change", dict(timeouts=2, max_term=3, hbs=0, max_msgs=6), 600_000),
+    ("elect", "elect", dict(max_msgs=5), 600_000),
+    ("late-vote0", "late-vote0", dict(timeouts=2, max_msgs=6), 600_000),
     ("repl-drop", "repl-drop", None, 600_000),
-    ("change-half", "change-half", dict(max_msgs=3), 600_000),
     ("change-t2-hb1", "change", dict(timeouts=2, max_term=3, hbs=1, max_msgs=3), 600_000),
+    ("change-half", "change-half", dict(max_msgs=3), 600_000),
     ("free", "free", dict(max_msgs=4), 600_000),
+    ("repl", "repl", dict(submits=2, hbs=3), 600_000),
+    ("crash-change", "crash-change", dict(max_msgs=3, timeouts=1), 600_000),
+    ("repl-s3", "repl", dict(submits=3, hbs=2), 600_000),
+    ("crash-change-m2", "crash-change", dict(max_msgs=2), 600_000),
+    ("late-vote", "late-vote", None, 600_000),
 ]
 
 
